@@ -17,7 +17,7 @@ func init() {
 		ID:          "C07",
 		Explanation: "RD: over doCompile's CFG every path performs exactly one fail/complete and no call (direct or deferred, other than (*task).release) can execute after it, so the recover handler can never complete a result twice. RG: the only goroutine of the package installs a deferred recover whose non-nil branch fails the result with a PanicError carrying the value. RF: all waits are ctx-cancellable and Compile defers cancel(). RB: publication by close.",
 		NotDecided:  "goroutine counts after return when a resolver never returns; behaviour of the resolver itself",
-		Rules:       []func(*World){rdCompiler, rgCompiler, rfCompiler, rbCompiler, rcCompile, reCompiler},
+		Rules:       []func(*World){rdCompiler, rgCompiler, rfCompiler, rbCompiler, rcCompile, reCompiler, rc11NotFoundFallsThrough},
 	})
 	register(&Property{
 		ID:          "C08",
@@ -77,7 +77,7 @@ func init() {
 		ID:          "C09",
 		Explanation: "RM: in the compile path (asParseResult, asFile, doCompile, asAST) the resolver-supplied SearchResult.ParseResult / Proto are used only for nil tests, read-only name checks, and as the argument of parser.Clone / proto.Clone. RL: parser.Clone's copy sets every field of parser.result, each bound to a fresh value (proto.Clone, make) or listed as deliberately shared immutable state; the original's descriptor proto leaves Clone only through proto.Clone; the key kinds written by the put*Node index writers equal those re-created by the clone.",
 		NotDecided:  "equality of descriptors across input forms (value-level); that nothing writes through a supplied Desc/AST (read-only by contract, not cloned)",
-		Rules:       []func(*World){rmCompiler, rlClone, rnClone, rl3CloneReadOnly},
+		Rules:       []func(*World){rmCompiler, rlClone, rnClone, rl3CloneReadOnly, rm2SourceInfoModeConfinement},
 	})
 	register(&Property{
 		ID:          "C24",
@@ -155,7 +155,7 @@ func init() {
 		ID:          "C13",
 		Explanation: "RQ: for every readRune call in a protoLex method, assuming the returned rune is a newline, every path feasible under that assumption (branch conditions over the rune, constants and strings.ContainsRune are evaluated; others explored both ways) passes maybeNewLine(rune) or un-reads the rune (with the size of the same read) or is the read-failed path, before the next readRune or any return: every consumed newline reaches FileInfo's line table.",
 		NotDecided:  "column arithmetic (tab stops, multi-byte runes) and span ordering",
-		Rules:       []func(*World){rqNewlines},
+		Rules:       []func(*World){rqNewlines, rq9ColumnArithmetic},
 	})
 	register(&Property{
 		ID:          "C12",
@@ -185,6 +185,6 @@ func init() {
 		ID:          "C11",
 		Explanation: "RR: productions are read from parser/proto.y and the compiled actions from the `switch protont` of parser/proto.y.go; symbol counts are cross-checked between both files; for every production without the `error` token the compiled action references all of its right-hand-side values protoDollar[1..K]. RR2: every exported ast.New*Node constructor of a composite node places each Node-typed parameter (or each element of a slice parameter) among the node's children. Together: every token the lexer hands to the parser is reachable by ast.Walk.",
 		NotDecided:  "that the lexer's items tile the input (whitespace/comment spans are arithmetic), BOM handling, correctness of leading-whitespace offsets, order of children",
-		Rules:       []func(*World){rrGrammar, rr2Constructors, rr3SameBuffer},
+		Rules:       []func(*World){rrGrammar, rr2Constructors, rr3SameBuffer, rr4OwnedSourceBytes, rr5PairedAccumulators},
 	})
 }
